@@ -9,7 +9,7 @@ THEOREMS = ["H5V.Props.C10." + t for t in [
     "stdStep_eq_head",
     "C10_utf8_chunking", "C10_utf8_text_errors", "C10_no_panic", "C10_chunking_independent",
     "C10_pieces_wellformed", "C10_lossyBytes_roundtrip", "C10_scalar_valid",
-    "C10_encoding_rs_partial", "C10_encoding_rs_eof_witness",
+    "C10_encoding_rs_partial", "C10_encoding_rs_finish_drains", "C10_encoding_rs_eof_witness",
 ]]
 TRUSTED = [
     "Lean 4 kernel; axioms ⊆ {propext, Classical.choice, Quot.sound} (audited per run)",
@@ -322,25 +322,15 @@ def neighbourhood(line):
 
 
 def _bom_defect(fl):
-    """defect 3 (tokenizer strips U+FEFF at the start of every feed) seen through from_utf8()"""
+    """defect 3 (tokenizer strips U+FEFF at the start of every feed) seen through from_utf8(); fixed in /repo"""
     if fl.case is None or "\tparse\t" not in fl.case:
         return False
     whole = b"".join(unhx(c) for c in fl.case.split("\t")[3].split("|"))
-    return "﻿" in whole.decode("utf-8", "replace")[1:] and "%feff;" in (fl.impl or "")
+    return "\ufeff" in whole.decode("utf-8", "replace")[1:] and "%feff;" in (fl.impl or "")
 
 
-def _encrs_eof_defect(fl):
-    """decode_to_sink returns after a Malformed result at end of stream although the decoder still has output pending"""
-    if fl.case is None or "\tenc\t" not in fl.case or not fl.impl:
-        return False
-    s, w = fl.impl.split(" ## ")
-    w = w.split(" D=")[0]
-    sp, wp = s[2:].rsplit(" ", 1)[0], w[2:].rsplit(" ", 1)[0]
-    return wp.startswith(sp.rstrip("-").strip()) and len(wp) > len(sp)
-
-
-# ids the main session may use in known_findings.json
-KNOWN_MATCHERS = {"F3": _bom_defect, "F3-C10": _bom_defect, "F22": _encrs_eof_defect, "F-C10-encrs-eof": _encrs_eof_defect}
+# ids under which a re-appearance of an already fixed defect may be matched in known_findings.json
+KNOWN_MATCHERS = {"F3": _bom_defect}
 
 
 def extra_evidence(check):
